@@ -79,6 +79,20 @@ def r11(F):
                 ok = can_ok
                 r.inst("%s:%s" % (k, v), fn.where(), ok, "converted" + (" (or error from a nested value)" if can_err else "") if ok else
                        "%s never produces a value for %s" % (k, v))
+    # scalar kinds: the value built for a scalar is of the serializer's matching kind, and only of that kind (a string that looks
+    # like a date is still a string: `"1979-05-27"` written as a TOML datetime decodes as a date, not as the string)
+    KIND = {"Str": {"String"}, "Boolean": {"Bool", "Boolean"}, "Int": {"Number", "Integer"}, "Float": {"Number", "Float"}, "Empty": {"Null"}}
+    for k, p in CONV.items():
+        fn = F.fn(p + "convert_value")
+        for v, want in KIND.items():
+            reach = variants.reach_variant(F, fn, 0, VAL, v, preds)
+            built = {rv.get("variant") for b, j, pl, rv, m in fn.assigns() if b in reach and rv["k"] == "agg" and
+                     (rv.get("adt") or "").endswith("value::Value")}
+            if not built:
+                continue            # produced through the serializer (to_value) or refused
+            okk = built <= want
+            r.inst("%s:%s:kind" % (k, v), fn.where(), okk, "%s -> %s" % (v, "/".join(sorted(built))) if okk else
+                   "%s can write a %s as %s: the decoded value is of another type than the one written in ucg" % (k, v, sorted(built - want)))
     # json: Number::from_f64 None -> Err
     fn = F.fn(CONV["json"] + "convert_value")
     errs = {b for b, j, pl, rv, m in fn.assigns() if pl["l"] == 0 and not pl["p"] and rv["k"] == "agg" and rv.get("variant") == "Err"}
@@ -310,4 +324,6 @@ def r70(F):
 
 from . import c14 as _c14
 
-RULES = [r10, r11, r12, r12b, r64, r64v, r70, _c14.r49t]
+from . import c11 as _c11
+
+RULES = [r10, r11, r12, r12b, r64, r64v, r70, _c14.r49t, _c11.r72]
